@@ -314,7 +314,7 @@ theorem listing_fuel_suffices (f : File) (unc : Codec) (hc : CodecOK unc) (S : R
       simp only
       intro h
       cases h
-      exact herr loopFuelSt (by decide) (readInodeP_nofail _ _ _ _ _ loopFuelSt (by decide) (by decide)) rfl
+      exact herr loopFuelSt (by decide) (readInodeP_nofail _ _ _ _ _ loopFuelSt (by decide) (by decide) (by decide)) rfl
     | ok ino =>
       simp only
       cases hod : d.openDir ino with
